@@ -288,6 +288,19 @@ impl Scenario for Soup {
         } else if rng.chance(1, 3) && !p.doc.is_empty() {
             p.stream.eof_at = Some(rng.below(p.doc.len()) as u32);
         }
+        // call histories: read_to_end* / read_text on arbitrary input, with the name of
+        // the last start tag or an arbitrary one
+        if rng.chance(1, 4) {
+            p.enumerate = false;
+            for _ in 0..rng.range(2, 16) {
+                p.ops.push(match rng.below(6) {
+                    0 | 1 => Op::Skip,
+                    2 if p.stream.kind == SourceKind::Slice => Op::ReadText,
+                    3 => Op::Flip { bit: 1 << rng.below(7), on: rng.bool() },
+                    _ => Op::Read,
+                });
+            }
+        }
         // a sprinkle of interrupts and one hard error, for the "all three source kinds" part
         if p.stream.kind != SourceKind::Slice && rng.chance(1, 4) {
             let calls = p.stream.cuts.len() as u32 * 2 + 6;
@@ -302,6 +315,17 @@ impl Scenario for Soup {
     fn exec(&self, plan: &Plan, st: &mut Stats) -> Vec<Violation> {
         let mut out = vec![];
         let shared = Rc::new(plan.doc.clone());
+        if !plan.ops.is_empty() {
+            let rec = run_ops_monitored(plan, &shared);
+            st.executions += 1;
+            count_faults(&rec, st);
+            st.bump(&format!("source.{}", plan.stream.kind.name()));
+            st.bump("soup.with_call_history");
+            monitor_violations(&rec, plan, "soup history run", &mut out);
+            st.note_distinct(plan.hash64(), rec.steps.iter().any(|s| !s.out.is_eof()));
+            st.fold_digest(plan.run, rec.hash());
+            return out;
+        }
         let eofs: Vec<Option<u32>> = if plan.enumerate {
             (0..=plan.doc.len() as u32).map(Some).collect()
         } else {
@@ -332,5 +356,89 @@ impl Scenario for Soup {
         }
         st.fold_digest(plan.run, digest);
         out
+    }
+}
+
+/// caller script of reads, skips, read_text and configuration flips on arbitrary
+/// input; only the C03 monitors apply
+fn run_ops_monitored(plan: &Plan, shared: &Rc<Vec<u8>>) -> RunRec {
+    use crate::core::guard;
+    use crate::rd::{Out, Rd, Step};
+    use crate::source::new_log;
+    use quick_xml::events::Event;
+    let st = &plan.stream;
+    let doc = &plan.doc;
+    let log = new_log(refill_budget(doc.len(), st) * 2);
+    let mut steps: Vec<Step> = vec![];
+    let mut monitor: Vec<(String, String)> = vec![];
+    let mut ticks = 0;
+    let eff_len = st.eof_at.map(|e| (e as usize).min(doc.len())).unwrap_or(doc.len());
+    let res = guard(|| {
+        let mut rd = Rd::new(doc, shared, st, plan.reader, plan.cfg, &log, plan.run);
+        let mut cfg = plan.cfg;
+        let mut last_name: Vec<u8> = b"a".to_vec();
+        let mut last_pos = 0u64;
+        for (i, op) in plan.ops.iter().enumerate() {
+            log.borrow_mut().cur_op = i as u32;
+            let out = match op {
+                Op::Flip { bit, on } => {
+                    if *on {
+                        cfg |= *bit
+                    } else {
+                        cfg &= !*bit
+                    }
+                    apply_cfg(rd.config_mut(), cfg);
+                    continue;
+                }
+                Op::Skip => match rd.skip(&last_name) {
+                    Ok(_) => Out::Ev(Event::Eof),
+                    Err(e) => Out::from_err(&e),
+                },
+                Op::ReadText => match rd.read_text(&last_name) {
+                    Some(Err(e)) => Out::from_err(&e),
+                    _ => Out::Ev(Event::Eof),
+                },
+                _ => {
+                    let r = rd.read();
+                    if let Ok(e) = &r {
+                        crate::accessors::exercise(e, rd.decoder());
+                        if let Event::Start(s) = e {
+                            last_name = s.name().as_ref().to_vec();
+                        }
+                    }
+                    Out::from(r)
+                }
+            };
+            let pos = rd.pos();
+            let epos = rd.epos();
+            if pos < last_pos {
+                monitor.push(("position-decreased".into(), format!("op {} ({:?}): {} -> {}", i, op, last_pos, pos)));
+            }
+            last_pos = pos;
+            let limit = if st.kind == SourceKind::Slice { eff_len as u64 } else { log.borrow().handed };
+            if pos > limit {
+                monitor.push(("position-beyond-input".into(), format!("op {} ({:?}): position {} > {} bytes handed out", i, op, pos, limit)));
+            }
+            if out.is_err() && epos > pos {
+                monitor.push(("error-position-beyond-position".into(), format!("op {} ({:?}): error_position {} > buffer_position {}", i, op, epos, pos)));
+            }
+            steps.push(Step { out, pos, epos, enc: rd.encoding_name() });
+        }
+        ticks = rd.timers.now();
+    });
+    let l = log.borrow();
+    RunRec {
+        steps,
+        panic: res.err(),
+        monitor,
+        trace: l.trace.clone(),
+        data_calls: l.data_calls,
+        total_calls: l.total_calls,
+        fired_eintr: l.fired_eintr,
+        fired_pending: l.fired_pending,
+        fired_err: l.fired_err,
+        err_fired: l.err_fired,
+        hit_trunc_eof: l.hit_trunc_eof,
+        ticks,
     }
 }
